@@ -4,9 +4,12 @@
 #  harness  : repo packages that receive the build-tagged export shims from /verif/harness/<pkg>/
 #  level    : evidence level
 EXPORTS = ["balloon", "balloon/hyper"]
+EXPORTS2 = EXPORTS + ["consensus"]
 CHECKS = {
     "C01": {"pkg": "verifx/c01", "run": "TestC01", "harness": EXPORTS, "level": "exploration"},
     "C04": {"pkg": "verifx/c01", "run": "TestC04", "harness": EXPORTS, "level": "exploration"},
     "C02": {"pkg": "verifx/c02", "run": "TestC02", "harness": EXPORTS, "level": "exploration"},
     "C03": {"pkg": "verifx/c03", "run": "TestC03", "harness": EXPORTS, "level": "exploration"},
+    "C12": {"pkg": "verifx/c12", "run": "TestC12", "harness": EXPORTS, "level": "exploration"},
+    "C13": {"pkg": "verifx/c13", "run": "TestC13", "harness": EXPORTS2, "level": "exploration"},
 }
